@@ -334,10 +334,10 @@ func main() {
 	if run.ReplayCase != nil {
 		// replays are handled per layer by case data: simply rerun everything with the same seed
 	}
-	nl := run.N(400, 20000)
+	nl := run.N(1500, 20000)
 	sim.Parallel(nl, 16, func(i int) { libCase(run, i) })
 	lagrangeTable(run)
-	nc := run.N(24, 600)
+	nc := run.N(64, 600)
 	tssworld.RunCases(run, "c03", nc, func(r *sim.Rng, i int) tssworld.Cfg {
 		nm := r.Range(1, 8)
 		mg := uint64(0)
